@@ -7,9 +7,9 @@ Three artefacts are tied together on every run, on the same generated programs:
   * the model compiler (coq/theories/L2/Compile.v, extracted runner c03-compile): its instruction stream
     must be the stream the real compiler emits for the same program, opcode by opcode including jump
     targets and constants (the sufficient link that lets compile_expr_correct / compile_stmts_correct /
-    compile_correct_partial speak about the real code);
+    compile_correct / compile_error speak about the real code);
   * the model VM (coq/theories/L2/Vm.v, runner c03-vm) on the model stream: three-way agreement
-    VM = interpreter = engine, also on what the simulation proof does not cover (loops, macros, calls).
+    VM = interpreter = engine, also on what the simulation proofs do not cover (outside the Lang syntax).
 A stream mismatch where rendering still agrees (also under extra contexts) and C05's verified checker
 accepts the real stream is a harmless codegen rewrite: reported (`stream_mismatch`), not a violation."""
 import os, sys, collections
@@ -256,9 +256,9 @@ def main():
     chk = Check("C03", "proof")
     chk.cov["trusted_base"] = TRUSTED_COMMON + ["Print Assumptions of the C03 theorems: see coverage.theorems",
         "the reference interpreter Lang/Interp.v is the specification (written from the documented semantics); tools/langenc.py + Lang/Codec.v (AST encoding) and tools/proggen.py (source printer) are unverified glue; the parser is covered by rendering the printed source",
-        "L2: coq/theories/L2/Compile.v and L2/Vm.v are hand-written mirrors of codegen.rs and eval_impl; Compile.v is tied to the code by comparing its stream with the real one on every generated program (this file: JSON -> canonical translation, the parser's view of the generated AST - negative literals, merged template data -, LocalId recomputed from the stream, order within Enclose runs ignored, none/undefined constants both `null` in the JSON); Vm.v by the three-way output agreement; the simulation theorems cover the fragment named in compile_correct_partial"]
+        "L2: coq/theories/L2/Compile.v and L2/Vm.v are hand-written mirrors of codegen.rs and eval_impl; Compile.v is tied to the code by comparing its stream with the real one on every generated program (this file: JSON -> canonical translation, the parser's view of the generated AST - negative literals, merged template data -, LocalId recomputed from the stream, order within Enclose runs ignored, none/undefined constants both `null` in the JSON); Vm.v by the three-way output agreement; the simulation theorems (compile_correct, compile_error) cover the whole Lang syntax"]
     chk.assumptions = ["fragment: expressions (arithmetic, comparison chains, and/or/not, in, ~, if-expressions, lists, subscripts, loop.* attributes, filters length/upper/lower/trim/capitalize/string/abs/default, tests defined/undefined/odd/even, range), if/elif/else, for with else / filter / loop variable / break / continue, set, set-block (with filter), with, macros with defaults and keyword arguments, call blocks with caller(), filter blocks; ASCII strings; integers far from the i128 bounds",
-                       "bytecode level: forward simulation proved for the whole Lang syntax (expressions incl. calls, all statements incl. filtered loops, macros, call blocks), successful runs; error preservation and everything outside the Lang syntax: stream correspondence + three-way output agreement only"]
+                       "bytecode level: forward simulation proved for the whole Lang syntax (expressions incl. calls, all statements incl. filtered loops, macros, call blocks), for successful runs (same final state) and for failing runs (same error kind; nothing about the output before the error); everything outside the Lang syntax: stream correspondence + three-way output agreement only"]
     okm, blog = build_models("C03")
     proofs_ok = chk.run_proofs()
     okc, clog = cargo_build(["prog"], release=False)
